@@ -34,6 +34,13 @@ func (*implAB) A(context.Context) error { return nil }
 func (*implAB) B()                      {}
 func (*implAB) C() int                  { return 0 }
 
+// a handler passed BY VALUE: a struct whose value-receiver methods implement both interfaces
+type implV struct{ id int }
+
+func (implV) A(context.Context) error { return nil }
+func (implV) B()                      {}
+func (implV) C() int                  { return 0 }
+
 type implAstale struct{ id int } // same method name, stale signature
 
 func (*implAstale) A() error { return nil }
@@ -142,7 +149,9 @@ func runC15(o *hx.Out, r *hx.Rand, thorough bool) {
 				impl := false
 				hid := nextID
 				nextID++
-				switch r.Intn(7) {
+				switch r.Intn(8) {
+				case 7:
+					h, impl = implV{int(hid)}, true
 				case 0, 1:
 					h, impl = &implA{int(hid)}, isA
 				case 2, 3:
